@@ -97,3 +97,27 @@ def cox_de_boor(kv, p, i, u, last):
     if d2 != 0:
         a += (kv[i + p + 1] - u) / d2 * cox_de_boor(kv, p - 1, i + 1, u, last)
     return a
+
+
+def knots_empty_last(rng, p):
+    """knot vector of degree p with an EMPTY last domain span, U_{n-1} = U_n (valid for knotvector.check): a knot of
+    multiplicity 2..p exactly on the domain end of an unclamped vector (p >= 2), or the end knot repeated p+2 (p+3)
+    times; returns (kv, n).  Outside the Lean model at u = U_n (F-01b: the repaired span searches step back)"""
+    den = rng.choice([4, 6, 8])
+    lead = [F(0)] * (p + 1) if rng.random() < .5 else [F(i - p, den) for i in range(p)] + [F(0)]
+    ints = sorted(rng.sample([F(i, den) for i in range(1, den)], rng.randint(1, 3)))
+    body = []
+    for x in ints:
+        body += [x] * rng.randint(1, p)
+    if p >= 2 and rng.random() < .6:
+        m = rng.randint(2, p)                       # a knot of multiplicity m <= p exactly on the domain end, p larger knots behind it
+        tail = sorted(F(1) + F(rng.randint(1, den), den) for _ in range(p))
+        kv = lead + body + [F(1)] * m + tail
+    else:
+        kv = lead + body + [F(1)] * (p + 2 + (1 if rng.random() < .25 else 0))      # end knot repeated p+2 (p+3) times
+    n = len(kv) - p - 1
+    assert kv[n - 1] == kv[n] and n >= p + 1 and kv[p] < kv[n]
+    if rng.random() < .3:
+        a, b = F(rng.randint(-2, 2)), F(rng.choice([2, 4, F(1, 2)]))
+        kv = [a + b * x for x in kv]
+    return kv, n
